@@ -1,56 +1,72 @@
 #!/venv/bin/python
 """Copies confirmed seeded changes from /tmp/seed into /verif/seeded/<id>/
-(patch.diff, demo.py, meta.json) using the seedrun results."""
-import json, os, shutil, sys
+(patch.diff, demo.py, meta.json) using the seedrun results.  Round 1 lives in
+<id>.out + results/, round 2 in <id>.out2 + results2/.  Several result files
+may exist per seed (re-runs after a check was strengthened): per check the
+most recent run wins."""
+import glob, json, os, shutil
 
 SRC = "/tmp/seed"
 DST = "/verif/seeded"
 os.makedirs(DST, exist_ok=True)
 rows = []
-for i in range(1, 20):
-    pid = f"C{i:02d}"
-    mp = f"{SRC}/{pid}.out/meta.json"
-    if not os.path.exists(mp):
-        continue
-    try:
-        meta = json.load(open(mp))
-    except Exception:
-        meta = {"changes": []}
-    ch = {c.get("id"): c for c in meta.get("changes", [])}
-    for v in "AB":
-        rp = f"{SRC}/results/{pid}_{v}.json"
-        if not os.path.exists(rp):
+for rnd, outs, ress, suffix in ((1, "out", "results", ""), (2, "out2", "results2", "2")):
+    for i in range(1, 20):
+        pid = f"C{i:02d}"
+        mp = f"{SRC}/{pid}.{outs}/meta.json"
+        if not os.path.exists(mp):
             continue
         try:
-            r = json.load(open(rp))
+            meta = json.load(open(mp))
         except Exception:
-            continue
-        if not r.get("applied") or not r.get("tests_pass") or r.get("demo_changed_exit") != 1 or r.get("demo_unchanged_exit") != 0:
-            rows.append((pid, v, "NOT KEPT", r.get("apply_error", "")[:80]))
-            continue
-        d = f"{DST}/{pid}-{v}"
-        os.makedirs(d, exist_ok=True)
-        shutil.copy(r["patch"], f"{d}/patch.diff")
-        shutil.copy(f"{SRC}/{pid}.out/demo_{v}.py", f"{d}/demo.py")
-        c = ch.get(v, {})
-        m = {
-            "property": pid,
-            "change": v,
-            "summary": c.get("summary"),
-            "needs_to_manifest": c.get("what_it_needs_to_manifest"),
-            "files": c.get("files"),
-            "origin": "written by an isolated sub-agent given only the property text and a scratch worktree",
-            "ported": r["patch"].endswith("_ported.diff"),
-            "confirmed": {
-                "how": "tools/seedrun.py: patch applied to a scratch copy of /repo; repository test-suite; demo on changed and unchanged tree; quick checks with VERIF_REPO on the copy",
-                "tests": r.get("tests"),
-                "demo_exit_changed_tree": r.get("demo_changed_exit"),
-                "demo_exit_unchanged_tree": r.get("demo_unchanged_exit"),
-            },
-            "checks_run": {k: {"exit": x["exit"], "signatures": x["signatures"][:3]} for k, x in r.get("checks", {}).items()},
-            "detected_by": r.get("detected_by"),
-        }
-        json.dump(m, open(f"{d}/meta.json", "w"), indent=1)
-        rows.append((pid, v, ",".join(r.get("detected_by") or []) or "MISSED", (c.get("summary") or "")[:90]))
+            meta = {"changes": []}
+        ch = {c.get("id"): c for c in meta.get("changes", [])}
+        for v in "AB":
+            files = sorted(glob.glob(f"{SRC}/{ress}/{pid}_{v}*.json"), key=os.path.getmtime)
+            runs = []
+            for f in files:
+                try:
+                    runs.append(json.load(open(f)))
+                except Exception:
+                    pass
+            base = [r for r in runs if r.get("applied") and "tests_pass" in r]
+            if not base:
+                if runs:
+                    rows.append((pid, v + suffix, "NOT KEPT", (runs[0].get("apply_error") or "")[:60]))
+                continue
+            r0 = base[-1]
+            if not r0.get("tests_pass") or r0.get("demo_changed_exit") != 1 or r0.get("demo_unchanged_exit") != 0:
+                rows.append((pid, v + suffix, "NOT KEPT", "not confirmed"))
+                continue
+            checks = {}
+            for r in runs:
+                if not r.get("applied"):
+                    continue
+                for k, x in r.get("checks", {}).items():
+                    checks[k] = {"exit": x["exit"], "signatures": x["signatures"][:3]}
+            det = sorted(k for k, x in checks.items() if x["exit"] == 1)
+            d = f"{DST}/{pid}-{v}{suffix}"
+            os.makedirs(d, exist_ok=True)
+            shutil.copy(r0["patch"], f"{d}/patch.diff")
+            shutil.copy(f"{SRC}/{pid}.{outs}/demo_{v}.py", f"{d}/demo.py")
+            c = ch.get(v, {})
+            m = {
+                "property": pid, "change": v, "round": rnd,
+                "summary": c.get("summary"),
+                "needs_to_manifest": c.get("what_it_needs_to_manifest"),
+                "files": c.get("files"),
+                "origin": "written by an isolated sub-agent given only the property text and a scratch worktree",
+                "ported": r0["patch"].endswith("_ported.diff"),
+                "confirmed": {
+                    "how": "tools/seedrun.py: patch applied to a scratch copy of /repo; repository test-suite; demo on changed and unchanged tree; quick checks with VERIF_REPO on the copy",
+                    "tests": r0.get("tests"),
+                    "demo_exit_changed_tree": r0.get("demo_changed_exit"),
+                    "demo_exit_unchanged_tree": r0.get("demo_unchanged_exit"),
+                },
+                "checks_run": checks,
+                "detected_by": det,
+            }
+            json.dump(m, open(f"{d}/meta.json", "w"), indent=1)
+            rows.append((pid, v + suffix, ",".join(det) or "MISSED", (c.get("summary") or "")[:80]))
 for row in rows:
     print(*row, sep=" | ")
